@@ -48,6 +48,10 @@ def outGM {n k : Nat} (b : GM Rat n k) : List String :=
   ((List.finRange k).flatMap fun i => outMatCM ratStr (Mat.eval (b.cov i))) ++
   (outVec ratStr b.weight)
 
+def likOut {k : Nat} : Option (Vec Rat k) → List String
+  | none => ["nolik"]
+  | some l => ["lik", toString k] ++ outVec outF (Vec.eval l)
+
 def sukf : R String := do
   let n ← nat; let nc ← nat; let msz ← nat; let bs ← nat; let red ← bool; let k ← nat; let s ← nat
   let vM ← bool; let vP ← bool; let vI ← bool
@@ -67,7 +71,7 @@ def sukf : R String := do
   let out : GM Rat n k := { b with weight := Vec.of (fun _ => 0) }   -- the caller's weights are not part of the comparison
   if hdiv : msz % bs = 0 then
     if !(vM && vP && vI) then
-      pure (join ("ok" :: outGM (sukfCorrect invQ bs R inp b out) ++ ["nolik"]))
+      pure (join ("ok" :: outGM (sukfCorrect invQ bs R inp b out) ++ likOut (sukfStepLikelihood invQ bs R inp b)))
     else
     have h : (msz / bs) * bs = msz := Nat.div_mul_cancel (Nat.dvd_of_mod_eq_zero hdiv)
     let Rc := R.cast h
@@ -87,14 +91,14 @@ def sukf : R String := do
     -- pass 2: the model's own definitions with the certified routine
     let res := sukfCorrect inv bs R inp b out
     let res : GM Rat n k := { mean := fun i => Vec.eval (res.mean i), cov := fun i => Mat.eval (res.cov i), weight := res.weight }
-    let lik := Vec.eval (sukfLikelihoods inv bs hdiv R inp b)
+    let lik := sukfStepLikelihood inv bs R inp b
     let us := (List.finRange k).map fun i =>
       ukfComp inv nc Rc.toFull (b.mean i) (b.cov i) (inp.X i) (castRows h (inp.Yp i)) wm wc (castVec h y)
     let uOut := (us.flatMap fun u => outVec ratStr u.mean) ++ (us.flatMap fun u => outMatCM ratStr (Mat.eval u.cov))
       ++ (us.map fun u => outF u.lik)
-    pure (join ("ok" :: outGM res ++ ["lik", toString k] ++ outVec outF lik ++ ["U"] ++ uOut))
+    pure (join ("ok" :: outGM res ++ likOut lik ++ ["U"] ++ uOut))
   else
-    pure (join ("ok" :: outGM (sukfCorrect invQ bs R inp b out) ++ ["nolik"]))
+    pure (join ("ok" :: outGM (sukfCorrect invQ bs R inp b out) ++ likOut (sukfStepLikelihood invQ bs R inp b)))
 
 def handle (op : String) (args : List String) : Option String :=
   match op with
